@@ -317,6 +317,27 @@ def impl_trace(item):
             while p.tighten_bounds():
                 if MON.steps > MAX_STEPS:
                     raise RuntimeError('too many steps')
+            if item.get('consts'):
+                # explicit (and correct) initial bounds over constant candidates: nothing inside the library passes
+                # initial_bounds / initial_cost, so this API path is exercised only here
+                from graphtage.edits import Match
+                from graphtage.bounds import Range
+                lo, hi = item['init']
+                a4, b4 = _build(item)
+                s2 = IterativeTighteningSearch(possibilities=iter([Match(a4, b4, c) for c in item['consts']]),
+                                               initial_bounds=Range(lo, hi))
+                MON.entry(s2)
+                while s2.tighten_bounds():
+                    if MON.steps > MAX_STEPS:
+                        raise RuntimeError('too many steps')
+                if s2.best_match is None or s2.best_match.bounds().upper_bound != min(item['consts']):
+                    raise RuntimeError('search with explicit initial bounds %r over constant candidates %r ended with best match %r'
+                                       % (item['init'], item['consts'], s2.best_match))
+                p2 = PossibleEdits(a4, b4, edits=iter([Match(a4, b4, c) for c in item['consts']]), initial_cost=Range(lo, hi))
+                MON.entry(p2)
+                while p2.tighten_bounds():
+                    if MON.steps > MAX_STEPS:
+                        raise RuntimeError('too many steps')
             ta = tb = None
         _finish_all()
     except BaseException as ex:  # noqa
@@ -685,7 +706,15 @@ def gen_items(tier, rng):
     for k in range(n_search):          # IterativeTighteningSearch / PossibleEdits over alternative edits
         a = sl.gen_value(rng, 2, 3)
         bs = [sl.mutate(rng, a) for _ in range(rng.randint(1, 4))]
-        items.append({'a': a, 'b': bs[0], 'bs': bs[1:], 'opts': list(sl.OPTION_SETS[k % 9]), 'mode': 'search'})
+        it = {'a': a, 'b': bs[0], 'bs': bs[1:], 'opts': list(sl.OPTION_SETS[k % 9]), 'mode': 'search'}
+        if k % 2 == 0:
+            # constant candidates and explicit initial bounds lo < min <= hi (hi == min: the cheapest candidate sits exactly on
+            # the initial upper bound)
+            consts = [rng.randint(1, 12) for _ in range(rng.randint(1, 4))]
+            m = min(consts)
+            it['consts'] = consts
+            it['init'] = [rng.randint(0, m - 1), m + rng.choice([0, 0, 1, 3])]
+        items.append(it)
     return items
 
 
